@@ -26,6 +26,7 @@ func init() {
 			{"C15-R4", "a slice's cached endpoints depend on that slice alone", c15r4},
 			{"C15-R5", "no queued event is dropped on the way to its handler", c15r5},
 			{"C15-R6", "the IP a pod was indexed under comes from the cache, not from the event", c15r6},
+			{"C15-R7", "every replay taken out of needResync is queued", c15r7},
 		},
 	})
 }
@@ -450,5 +451,48 @@ func c15r6(c *Ctx) {
 		c.Check("onEvent: a pod without IP is dismissed only after the cache's reverse index was consulted", pos, !found,
 			"PodCache.onEvent can return for an event whose pod carries no IP without having looked the pod up in ipByPods: the IP the pod is indexed under is then taken from the event (or not at all), and an evicted pod that arrives as a DELETE, or after its Failed update was coalesced, is never removed - its address keeps a second owner and its identity outlives the object")
 	}
+	c.Floor(2)
+}
+
+// C15-R7: every replay that is taken out of needResync is queued. addPod deletes the whole needResync[ip] entry and then
+// walks it; an endpoint key that the walk skips has lost its pending replay for good (nothing registers it again unless
+// the slice is processed for another reason). Every pass of the loop over the drained entry calls queueEndpointEvent.
+func c15r7(c *Ctx) {
+	p := c.P
+	fn := p.Func(pkgKubeCtl, "PodCache", "addPod")
+	qf := p.Field(pkgKubeCtl, "PodCache", "queueEndpointEvent")
+	nr := p.Field(pkgKubeCtl, "PodCache", "needResync")
+	n := 0
+	for _, l := range rangeLoops(fn) {
+		if l.Over == nil {
+			continue
+		}
+		// the drained entry: a comma-ok lookup in needResync
+		fromNR := false
+		if ex, ok := l.Over.(*ssa.Extract); ok {
+			if lk, ok := ex.Tuple.(*ssa.Lookup); ok && fieldOfLoad(lk.X) == nr {
+				fromNR = true
+			}
+		}
+		if lk, ok := l.Over.(*ssa.Lookup); ok && fieldOfLoad(lk.X) == nr {
+			fromNR = true
+		}
+		if !fromNR {
+			continue
+		}
+		n++
+		isQ := deepMust(func(ins ssa.Instruction) bool {
+			ci, ok := ins.(ssa.CallInstruction)
+			return ok && fieldOfLoad(ci.Common().Value) == qf
+		}, 1)
+		bad, found := pathAvoidingE(l.Body, nil, isQ, nil, nil, l.Header)
+		pos := fn.Pos()
+		if bad != nil {
+			pos = bad.Pos()
+		}
+		c.Check("addPod: every replay taken out of needResync is queued", pos, !found,
+			"a pass of the loop over the drained needResync entry can finish without queueing the endpoint event: the entry was deleted as a whole before the loop, so the skipped EndpointSlice has lost its pending replay - when its own Pod arrives later on the same IP there is nothing left to replay, and the service keeps an endpoint set a cold start would not produce")
+	}
+	c.Check("addPod drains needResync in a loop", fn.Pos(), n == 1, "no loop over the needResync entry of the pod's IP found in addPod")
 	c.Floor(2)
 }
